@@ -375,14 +375,17 @@ EXTRA_RULE_LATE = {
     "C08": " Fields lists with as many names as the type has fields, one of them id (with or without one more name that is not a field).",
     "C09": " The empty byte string comes allocated and as a nil slice.",
     "C11": " One document in four carries top-level links of its own (paths, absolute, empty, with meta). Prefixes ending in two slashes; the to-many lists handed out by Get are permuted in place before the last marshal.",
-    "C12": " One marshal-softcol operation in six has 17 to 129 members.",
+    "C12": " One marshal-softcol operation in six has 17 to 129 members. Two identifiers in ten of the unmarshal operations bear the name of some type of the schema.",
     "C13": " A relationship member may be null; one payload in eight is preceded by white space or by text that is not white space.",
-    "C17": " Equality pairs include a to-many list and its prefix in the same array, handed over as they are.",
-    "C19": " At is also read far outside the range (1<<32, 1<<32+1, -(1<<32), 1<<62+1, the ends of int). One collection in four takes its type from a wrapped struct as it comes; structs of that Go type are added later.",
+    "C17": " Equality pairs include a to-many list and its prefix in the same array, handed over as they are. Action TypeNew: GetType().New() of either resource is a fresh resource of the type.",
+    "C19": " At is also read far outside the range (1<<32, 1<<32+1, -(1<<32), 1<<62+1, the ends of int). One collection in four takes its type from a wrapped struct as it comes; structs of that Go type are added later. Relationships added to the collection may name an inverse.",
     "C01": " In member mode the member in front carries, for a same-named attribute of another kind, the value written with the same JSON literal.",
     "C06": " Two payloads in three for a type of more than 12 fields carry plain, certainly acceptable literals for all but two attributes.",
     "C15": " One case in three rebuilds the schema type by type (lookups and Check on the way) and adds the relationships afterwards; attributes may bear relationship names.",
-    "C18": " One source in four was copied once before, with nil byte strings and lists.",
+    "C18": " One source in four was copied once before, with nil byte strings and lists; one wrapped source in four wraps a struct filled through another wrapper of the same pointer.",
+    "C05": " Requests announce an encoding of their body (gzip, identity, deflate, br or none, chosen by the body's length) and a content type now and then.",
+    "C14": " After a pair was added, one AddTwoWayRel in four tries the pair that reads the same once its names are joined with underscores.",
+    "C16": " In the edit-by-edit build one relationship in four is first declared with other cardinalities, listed, removed and declared anew.",
     "C20": " The built type must be Type.Equal to the wrapper's type and to the type of Type.New(); a copy must be EqualStrict to its source, also with empty non-nil byte strings and lists.",
 }
 
